@@ -210,11 +210,21 @@ def true_sep(ra1, dec1, ra2, dec2):
     return float(np.degrees(np.arctan2(np.linalg.norm(np.cross(a, b)), np.dot(a, b))))
 
 
+def sep_matrix(ra1, dec1, ra2, dec2):
+    """all great-circle separations (degrees) between two lists, from unit vectors: atan2(|a x b|, a.b)"""
+    def unit(r, d):
+        r, d = np.radians(np.asarray(r, dtype=float)), np.radians(np.asarray(d, dtype=float))
+        return np.stack([np.cos(d) * np.cos(r), np.cos(d) * np.sin(r), np.sin(d)], axis=-1)
+    a, b = unit(ra1, dec1)[:, None, :], unit(ra2, dec2)[None, :, :]
+    cr = np.cross(a, b)
+    return np.degrees(np.arctan2(np.sqrt((cr ** 2).sum(axis=-1)), (a * b).sum(axis=-1)))
+
+
 @register("C04")
 class SpherematchBruteForce(_NumericJob):
     name = "spherematch_vs_brute_force"
     target = "pydl.pydlutils.spheregroup:spherematch, chunks.__init__, chunks.assign, chunks.getbounds, chunks.get"
-    bound = ("4..40 x 4..40 points: clustered, straddling the RA 0/360 seam, near a pole, all sky, lattice aligned with chunk edges (list 1 optionally padded "
+    bound = ("4..40 x 4..40 points: clustered, strips at high |Dec| with partners 0.90..0.999 match lengths away along RA, straddling the RA 0/360 seam, near a pole, all sky, lattice aligned with chunk edges (list 1 optionally padded "
              "with an all-sky lattice so that the chunk rows span the full circle); match lengths 1 arcsec .. 20 deg; chunk sizes from the default to 40 x "
              "the match length; maxmatch 0, 1, 2, 3; pairs within 1e-7 deg of the match length are not generated")
     KINDS = ("unlimited_match_returns_exactly_the_pairs_below_the_match_length_once", "separations_true_and_non_decreasing", "maxmatch_k_is_a_distance_ordered_greedy_selection",
@@ -224,10 +234,29 @@ class SpherematchBruteForce(_NumericJob):
     def _cases(self, rng, n):
         rep = 0
         while rep < n:
-            kind = rng.choice(["cluster", "seam", "seam", "pole", "allsky", "lattice"])
+            kind = rng.choice(["cluster", "seam", "seam", "pole", "allsky", "lattice", "strip", "strip"])
             n1, n2 = rng.randint(4, 40), rng.randint(4, 40)
-            ra1, dec1 = sky_points(rng, n1, kind)
-            if kind == "allsky":
+            if kind == "strip":
+                # a strip along RA at high |Dec| (either hemisphere) many chunks long; every list-2 point sits 0.90..0.999 match lengths from a
+                # list-1 point, mostly along RA: pairs straddling RA chunk edges right at the margin the hash must honour
+                length = rng.choice([0.05, 0.3, 1.0])
+                d0 = rng.choice([-1, 1]) * rng.uniform(40.0, 82.0)
+                r0 = rng.uniform(0, 360)
+                n1 = n2 = rng.randint(20, 40)
+                ra1 = (r0 + np.array([rng.uniform(0, 12 * length / np.cos(np.radians(d0))) for _ in range(n1)])) % 360.0
+                dec1 = d0 + np.array([rng.uniform(-1.5, 1.5) * length for _ in range(n1)])
+                ra2, dec2 = [], []
+                for k in range(n2):
+                    dd = rng.uniform(0.90, 0.999) * length
+                    th = rng.choice([0.0, np.pi]) + rng.uniform(-0.3, 0.3)
+                    dec2.append(dec1[k] + dd * np.sin(th))
+                    ra2.append((ra1[k] + dd * np.cos(th) / np.cos(np.radians(dec1[k]))) % 360.0)
+                ra2, dec2 = np.array(ra2), np.array(dec2)
+            else:
+                ra1, dec1 = sky_points(rng, n1, kind)
+            if kind == "strip":
+                pass
+            elif kind == "allsky":
                 ra2, dec2 = sky_points(rng, n2, kind)
                 length = rng.choice([5.0, 10.0, 20.0, 2.0])
             else:
